@@ -374,8 +374,8 @@ def py_datetime_imported(t, maps):
 
 
 def known_python(case):
-    """Python has no known class any more: py-alias-typevar (614135b), py-default-custom-fns (ab2f0e6) and
-    py-mapped-datetime-import (062e77e) are repaired and TsV.C12.C12_python is a full theorem.  (The simulation of the
+    """Python has no known class any more: py-alias-typevar (f8d1040), py-default-custom-fns (0d6268d) and
+    py-mapped-datetime-import (bfc37c3) are repaired and TsV.C12.C12_python is a full theorem.  (The simulation of the
     printer state above is kept for `replay`-time diagnostics of a returned defect.)"""
     return []
 
@@ -392,10 +392,10 @@ def returned_python(case):
         if ty and not dflt:
             registered.add(ty)
     if any(dflt and py_type(t, maps)[0] and py_type(t, maps)[0] not in registered for t, dflt, _ in d["fields"]):
-        out.append("py-default-custom-fns (fix ab2f0e6)")
+        out.append("py-default-custom-fns (fix 0d6268d)")
     if ("datetime" in registered or any(py_type(t, maps)[0] == "datetime" for t, _, _ in d["fields"])) \
             and not any(py_datetime_imported(t, maps) for t in all_types(d)):
-        out.append("py-mapped-datetime-import (fix 062e77e)")
+        out.append("py-mapped-datetime-import (fix bfc37c3)")
     return out
 
 
@@ -598,8 +598,8 @@ WITNESSES = [
 ]
 
 
-# the witnesses of the repaired findings scala-unsigned-scan-depth (c7871b1), py-alias-typevar (614135b),
-# py-default-custom-fns (ab2f0e6) and py-mapped-datetime-import (062e77e): now ordinary inputs that must pass the oracle
+# the witnesses of the repaired findings scala-unsigned-scan-depth (37c1b68), py-alias-typevar (f8d1040),
+# py-default-custom-fns (0d6268d) and py-mapped-datetime-import (bfc37c3): now ordinary inputs that must pass the oracle
 # (and on which model and implementation must agree); a failure is reported as a VIOLATION with the input ("has returned")
 REGRESSIONS = [
     ("scala", [("field", ("Vec", "Vec"), "u8")]),
